@@ -34,7 +34,7 @@ K("c09_rec_string", "rdb", ["C09"], tier="quick", timeout=900,
   stubs=ENG, assumptions=REC_AS, native_replay=False)
 REC = ["StorageEngine::{set_string,set_string_ex,rpush,sadd,hset,zadd,xadd_with_id,expire} -> recording stubs: the harness decides that the reader issues exactly the engine calls that rebuild the saved value (key, elements, order, scores, expire last); the effect of those calls on an engine is decided by the engine-level properties, not here"]
 REC_AS2 = RDB_IO + ["reader side = the value-type arm of load_into's dispatch (read_byte, then read_key_value_with_type) with an ARBITRARY ttl argument (None or any u64 milliseconds), as read_key_value_with_expiry may pass it"]
-K("c09_e2e_list", "rdb", ["C09"], tier="thorough", timeout=2400, fs_array=4096,
+K("c09_e2e_list", "rdb", ["C09"], tier="thorough", timeout=2400, fs_array=4096, mem_gb=28,
   desc="list record round trip END TO END through the real engine (two chained rpush): 2 elements of 1 arbitrary byte: same order and content, no TTL invented",
   encodes=REC_ENC + ["StorageEngine::rpush"], bounds="key 1 symbolic byte, 2 elements x 1 symbolic byte; unwind 6",
   stubs=ENG, assumptions=REC_AS, native_replay=False)
